@@ -4,7 +4,7 @@ CONSTANTS
   KeyPrefixes = {"#", "_"}
   FieldSeps = {":", "|"}
   ArraySizes = {0}
-  ActiveFns = {"LeafUseDotNotation", "SetAttrPrefix"}
+  ActiveFns = {"LeafUseDotNotation", "SetAttrPrefix", "SetGlobalKeyMapPrefix"}
   ActiveOps = {"leaf", "struct"}
   MaxHist = 4
 INVARIANTS Functional OnlyRelevant Emit
